@@ -101,6 +101,61 @@ def run_e2(res, tier):
     res.sample(lambda: {"case": cases[5], "observation": obs[5]})
 
 
+def run_e2_overrides(res, tier):
+    """Contracts with hand-written entry points for subsets of the kinds (the `override` corpus of C06): a document sent to the
+    entry of kind K2 may only reach K2's override or K2-annotated handlers."""
+    from . import c06_e2
+    from .fam_reply import reply_doc
+    cp, progs = c06_e2.corpus(tier)
+    cases, exp = [], []
+    for over, pid, c in progs:
+        if pid in cp.failed:
+            res.violation({"kind": "compile", "cls": "valid_program_rejected", "pid": pid, "diags": cp.failed[pid][:3],
+                           "what": "%s: contract overriding %s does not compile: %s" % (pid, sorted(over), cp.failed[pid][0]["message"])})
+            continue
+        hs = fam_basic.handlers(c, include_reply=True)
+        kind_of = {"%s::%s" % (disp, bare(m.name)): m.kind for (label, disp, m) in hs}
+        docs = []
+        for (label, disp, m) in hs:
+            if m.kind == "reply":
+                docs += [("reply", reply_doc(0, b"pl", 3, True, [], None, [])), ("reply", reply_doc(0, b"", 0, False))]
+            else:
+                docs.append((m.kind, fam_basic.doc(m, fam_basic.value_tuples(m)[0])))
+        for k1, d in docs:
+            for k2 in KINDS:
+                for op in ("ep", "mt"):
+                    cases.append({"prog": pid, "op": op, "kind": k2, "input": d, "ctx": fam_basic.CONTEXTS[1]})
+                    exp.append((pid, over, kind_of, k1, k2, d, op))
+    for case, e, o in zip(cases, exp, cp.run_cases(cases)):
+        pid, over, kind_of, k1, k2, d, op = e
+        res.add(states=1, transitions=1, traces=1, evaluations=1)
+        if o is None or o.get("absent"):
+            continue
+        if k1 != k2:
+            res.mark_nontrivial("ovr|%s|%s|%s|%s|%s" % (pid, k1, k2, op, d))
+
+        def bad(what, cls):
+            res.violation({"kind": "cross_kind", "cls": cls, "pid": pid, "sent_kind": k1, "entry": k2, "via": op, "doc": d, "obs": o, "overridden": sorted(over),
+                           "what": "%s (overridden: %s): %s document %s sent to the %s %s: %s" % (pid, sorted(over), k1, d, k2, "entry point" if op == "ep" else "multitest entry", what)})
+        if "panic" in o:
+            bad("panic: %s" % o["panic"], "panic")
+            continue
+        marker = None
+        if o.get("res") == "ok":
+            if "resp" in o:
+                marker = next((a["value"] for a in o["resp"].get("attributes", []) if a["key"] == "override"), None)
+            elif o.get("bin") == '"override:query"':
+                marker = "query"
+        res.outcome(("ovr", k1 == k2, marker is not None))
+        if marker is not None and marker != k2:
+            bad("the hand-written `%s` entry point ran" % marker, "foreign_override")
+        for h in ran(o, k2):
+            hk = "query" if h == "?query-without-echo" else kind_of.get(h)
+            if hk != k2:
+                bad("handler %s (annotated %s) ran" % (h, hk), "foreign_handler")
+    res.parts["e2_override_cases"] = len(cases)
+
+
 def run_e1(res, tier):
     """Static part: each contract-level message of kind K consults only K tables and K accessors."""
     recs, meta = [], {}
@@ -143,9 +198,11 @@ def run(tier):
     res = core.Result("C04", tier)
     run_e1(res, tier)
     run_e2(res, tier)
+    run_e2_overrides(res, tier)
     res.cov["rule"] = ("for the `basic` corpus programs (same name and argument shape in different kinds across contract and interfaces, documents valid for "
                        "two kinds, a contract with reply handlers): every well-formed document of every kind K1 (incl. replies) sent to the entry point and "
                        "to the multitest Contract method of every kind K2 (all 36 ordered pairs incl. K1 = K2 as control); handlers that ran are read "
-                       "from the storage log / query payload and must all be annotated K2.  non-trivial = K1 != K2")
+                       "from the storage log / query payload and must all be annotated K2; the same 36 pairs on contracts whose entry points are hand-written for subsets of the kinds "
+                       "(override corpus): only K2's own override or K2-annotated handlers may run.  non-trivial = K1 != K2")
     res.assumptions += ["entry points are driven as the wasm export does: from_json into the entry point's message type, then the generated function"]
     return res.finish()
